@@ -44,11 +44,11 @@ type realWorld struct {
 	uaddr     syscall.Sockaddr
 	aux       []int // descriptors to close at the end
 
-	sentA, drained int // bytes written by A / read by the peer
+	sentA, drained  int // bytes written by A / read by the peer
 	peerSent, readA int // bytes written by the peer / read by A
-	short          bool
-	fillRetries    int
-	notes          []string
+	short           bool
+	fillRetries     int
+	notes           []string
 }
 
 func newRealWorld(transport string) (*realWorld, error) {
@@ -223,6 +223,7 @@ func ioctlInt(fd int, req uintptr) int {
 func (w *realWorld) isTCP(fd int) bool { return tcpState(fd) >= 0 }
 
 func (w *realWorld) step(st Step, hint string) string {
+	w.detail = ""
 	fd, have := w.fds[st.Role]
 	switch st.Op {
 	case OpEpollAdd, OpEpollMod, OpEpollDel:
@@ -248,6 +249,9 @@ func (w *realWorld) step(st Step, hint string) string {
 		if w.peer < 0 && err == nil && w.isTCP(fd) {
 			// written towards a closed peer: its RST must arrive
 			within(mustArrive, func() bool { return tcpState(fd) == tcpClose })
+		}
+		if err != nil {
+			w.detail = errClass(err)
 		}
 		return writeClass(n, err)
 	case OpFill:
